@@ -58,6 +58,19 @@ example : admissionOK [("src/x.go", "T.fwd", "fwd", "AddTransaction", "none"),
     loop — captured loop variable, detached verdicts — changes this list). -/
 theorem admission_is_sequential : admissionGoroutines = [] := rfl
 
+/-- The admission handlers keep no state of their own: the files that contain them declare only
+    the eight message-method constants (`worker_conn.go`; `game_executor.go` declares none), and no
+    admission function assigns to, or calls a method on, a package-level variable of its package — no
+    cache of rejected hashes, no seen-set, no counter. The pool is the only memory, as in
+    `hashesAfterSeq`. -/
+theorem admission_handlers_stateless :
+    admissionFileVars = [
+      ("src/network/worker_conn.go", "methodCodeBroadcast"), ("src/network/worker_conn.go", "methodCodeJoinGroup"),
+      ("src/network/worker_conn.go", "methodCodeQuitGroup"), ("src/network/worker_conn.go", "methodCodeSend"),
+      ("src/network/worker_conn.go", "methodCodeSendToGroup"), ("src/network/worker_conn.go", "methodCodeTxBroadcast"),
+      ("src/network/worker_conn.go", "methodSendToManager"), ("src/network/worker_conn.go", "methodSetNetId")] ∧
+    admissionStateUses = [] := ⟨rfl, rfl⟩
+
 theorem scanned_whole_tree : admissionFilesScanned ≥ 300 := by decide
 
 end Rangers.Props.C07Admit
